@@ -530,10 +530,11 @@ class QuicConnection:
 
         :param now: The current time.
         """
-        network_path = self._network_paths[0]
-
-        if self._state in END_STATES:
+        if self._state in END_STATES or not self._network_paths:
+            # nothing to send when closing, or when a server has not processed
+            # an INITIAL packet yet and knows no network path
             return []
+        network_path = self._network_paths[0]
 
         # build datagrams
         builder = QuicPacketBuilder(
